@@ -1,6 +1,6 @@
 (* Proofs for C07 about Model.Multistart. *)
-From Coq Require Import List QArith Bool Arith Lia.
-From LV Require Import Model.Optim Model.Multistart.
+From Coq Require Import List QArith Bool Arith Lia Lra.
+From LV Require Import Model.Optim Model.Multistart Proofs.Optim.
 Import ListNotations.
 Open Scope Q_scope.
 
@@ -60,6 +60,273 @@ Section MSProofs.
     unfold initial in Hp. destruct (nm <=? length sel)%nat; [left; exact Hp|].
     apply in_app_or in Hp. destruct Hp; [left; assumption | right; eauto].
   Qed.
+
+  (* ---------------------------------------------------------------------------------------------------------------
+     The full multistart clause: the reported lists are the per-start outcomes and the result is the first successful
+     end point of maximal value.  Specification side (no reference to the loop): *)
+
+  (* what the code records for one run: start, end point, function value (None = NaN), success *)
+  Record ms_row := mkrow { r_start : point; r_end : point; r_val : option Q; r_succ : bool }.
+  Definition ms_row_of (k : nat) (p : point) : ms_row :=
+    let o := run k p in mkrow p (end_of p o) (fst (ms_record acc p o)) (snd (ms_record acc p o)).
+  (* the rows of the runs number k, k+1, ... started at the given points *)
+  Fixpoint ms_rows (k : nat) (ps : batch) : list ms_row :=
+    match ps with [] => [] | p :: r => ms_row_of k p :: ms_rows (S k) r end.
+
+  (* a run counts when it is recorded as successful (so its end point is acceptable) with a real value *)
+  Definition good_row (r : ms_row) : Prop := r_succ r = true /\ exists v, r_val r = Some v.
+  (* e is the end point and v the value of the FIRST row that counts and has maximal value among the rows that count *)
+  Definition first_max_success (rows : list ms_row) (e : point) (v : Q) : Prop :=
+    exists pre r post, rows = pre ++ r :: post /\ r_succ r = true /\ r_val r = Some v /\ r_end r = e /\
+      (forall r' w, In r' pre -> r_succ r' = true -> r_val r' = Some w -> w < v) /\
+      (forall r' w, In r' post -> r_succ r' = true -> r_val r' = Some w -> w <= v).
+  Definition no_good_row (rows : list ms_row) : Prop := forall r, In r rows -> r_succ r = true -> r_val r = None.
+
+  Lemma first_max_success_all_le rows e v : first_max_success rows e v ->
+    forall r' w, In r' rows -> r_succ r' = true -> r_val r' = Some w -> w <= v.
+  Proof.
+    intros (pre & r & post & -> & Hs & Hv & _ & Hpre & Hpost) r' w Hin Hs' Hw.
+    apply in_app_or in Hin. destruct Hin as [Hin | [<- | Hin]].
+    - apply Qlt_le_weak. eapply Hpre; eauto.
+    - rewrite Hv in Hw. injection Hw as <-. apply Qle_refl.
+    - eapply Hpost; eauto.
+  Qed.
+
+  Lemma first_max_success_good rows e v : first_max_success rows e v -> exists r, In r rows /\ good_row r.
+  Proof.
+    intros (pre & r & post & -> & Hs & Hv & _). exists r. split; [apply in_or_app; right; left; reflexivity|].
+    split; [exact Hs | eauto].
+  Qed.
+
+  Lemma ms_row_of_acceptable k p : r_succ (ms_row_of k p) = true -> acc (r_end (ms_row_of k p)) = true.
+  Proof.
+    unfold ms_row_of. cbn [r_succ r_end]. destruct (ms_record acc p (run k p)) as [fv sc] eqn:E. cbn [snd].
+    intros ->. exact (ms_record_success _ _ _ E).
+  Qed.
+
+  Lemma ms_rows_acceptable ps : forall k r, In r (ms_rows k ps) -> r_succ r = true -> acc (r_end r) = true.
+  Proof.
+    induction ps as [|p ps IH]; intros k r Hin Hs; simpl in Hin; [contradiction|].
+    destruct Hin as [<- | Hin]; [apply ms_row_of_acceptable; exact Hs | eapply IH; eauto].
+  Qed.
+
+  Lemma ms_rows_app ps qs : forall k, ms_rows k (ps ++ qs) = ms_rows k ps ++ ms_rows (k + length ps) qs.
+  Proof.
+    induction ps as [|p ps IH]; intro k; simpl; [rewrite Nat.add_0_r; reflexivity|].
+    rewrite IH. rewrite <- plus_n_Sm. reflexivity.
+  Qed.
+
+  Lemma ms_rows_length ps : forall k, length (ms_rows k ps) = length ps.
+  Proof. induction ps as [|p ps IH]; intro k; simpl; [reflexivity | rewrite IH; reflexivity]. Qed.
+
+  Lemma ms_rows_starts ps : forall k, map r_start (ms_rows k ps) = ps.
+  Proof. induction ps as [|p ps IH]; intro k; simpl; [reflexivity | rewrite IH; reflexivity]. Qed.
+
+  (* the loop invariant: `done` are the rows of the runs made so far *)
+  Definition ms_inv (done : list ms_row) (st : ms_state) : Prop :=
+    ms_starts st = map r_start done /\ ms_ends st = map r_end done /\
+    ms_vals st = map r_val done /\ ms_succ st = map r_succ done /\
+    match done with
+    | [] => ms_best st = None /\ ms_bestv st = None
+    | r1 :: _ =>
+        match ms_bestv st with
+        | Some v => exists e, ms_best st = Some e /\ first_max_success done e v
+        | None => no_good_row done /\ ms_best st = Some (if r_succ r1 then r_end r1 else r_start r1)
+        end
+    end.
+
+  Lemma ms_inv_init : ms_inv [] ms_init.
+  Proof. repeat split. Qed.
+
+  (* one pass through the loop body *)
+  Definition ms_body (k : nat) (p : point) (st : ms_state) : ms_state :=
+    let o := run k p in
+    let '(fv, sc) := ms_record acc p o in
+    let st1 := mkms (ms_best st) (ms_bestv st) (ms_starts st ++ [p]) (ms_ends st ++ [end_of p o])
+                    (ms_vals st ++ [fv]) (ms_succ st ++ [sc]) in
+    let take := is_none (ms_best st) || (sc && gtv fv (ms_bestv st)) in
+    if take then
+      if is_none (ms_best st) && negb sc
+      then mkms (Some p) (ms_bestv st1) (ms_starts st1) (ms_ends st1) (ms_vals st1) (ms_succ st1)
+      else mkms (Some (end_of p o)) (match fv with None => ms_bestv st | Some f => Some f end)
+                (ms_starts st1) (ms_ends st1) (ms_vals st1) (ms_succ st1)
+    else st1.
+
+  Lemma ms_loop_unfold nm nsel k p r st :
+    ms_loop acc run nm nsel k (p :: r) st =
+    let st2 := ms_body k p st in
+    if (if Nat.eqb nm 0 then Nat.eqb (length (ms_vals st2)) nsel else (nm <=? length (ms_vals st2))%nat)
+    then Ok st2 else ms_loop acc run nm nsel (S k) r st2.
+  Proof. unfold ms_body. cbn [ms_loop]. destruct (ms_record acc p (run k p)) as [fv sc]. reflexivity. Qed.
+
+  Lemma ms_body_inv done st k p : ms_inv done st -> ms_inv (done ++ [ms_row_of k p]) (ms_body k p st).
+  Proof.
+    intros (Hst & Hen & Hva & Hsu & Hbest).
+    unfold ms_body, ms_row_of. destruct (ms_record acc p (run k p)) as [fv sc] eqn:Er. cbn [fst snd].
+    set (row := mkrow p (end_of p (run k p)) fv sc).
+    assert (Hlists : forall b bv, 
+              match done ++ [row] with
+              | [] => b = None /\ bv = None
+              | r1 :: _ => match bv with
+                           | Some v => exists e, b = Some e /\ first_max_success (done ++ [row]) e v
+                           | None => no_good_row (done ++ [row]) /\ b = Some (if r_succ r1 then r_end r1 else r_start r1)
+                           end
+              end ->
+              ms_inv (done ++ [row])
+              (mkms b bv (ms_starts st ++ [p]) (ms_ends st ++ [end_of p (run k p)]) (ms_vals st ++ [fv]) (ms_succ st ++ [sc]))).
+    { intros b bv. unfold ms_inv. cbn [ms_starts ms_ends ms_vals ms_succ ms_best ms_bestv].
+      rewrite !map_app, Hst, Hen, Hva, Hsu. cbn [map r_start r_end r_val r_succ row]. tauto. }
+    clear Hst Hen Hva Hsu.
+    remember (ms_best st) as b0 eqn:Eb0. remember (ms_bestv st) as bv0 eqn:Ebv0. clear Eb0 Ebv0.
+    destruct done as [|r1 done'].
+    - (* first run *)
+      destruct Hbest as (-> & ->). cbn [is_none orb andb].
+      destruct sc; cbn [negb].
+      + apply Hlists. cbn [app]. destruct fv as [f|].
+        * exists (end_of p (run k p)). split; [reflexivity|].
+          exists [], row, []. repeat split; try reflexivity; intros r' w [].
+        * split; [|reflexivity]. intros r [<- | []] _. reflexivity.
+      + apply Hlists. cbn [app]. split; [|reflexivity]. intros r [<- | []] Hs. discriminate.
+    - (* later runs: there is an incumbent *)
+      assert (Hkeep : forall e v, first_max_success (r1 :: done') e v ->
+                (forall w, sc = true -> fv = Some w -> w <= v) -> first_max_success ((r1 :: done') ++ [row]) e v).
+      { intros e v (pre & r & post & E & Hs & Hv & He & Hpre & Hpost) Hrow.
+        exists pre, r, (post ++ [row]). split; [rewrite E, <- app_assoc; reflexivity|].
+        repeat split; try assumption.
+        intros r' w Hin Hs' Hw. apply in_app_or in Hin. destruct Hin as [Hin | [<- | []]]; [eapply Hpost; eauto|].
+        apply Hrow; assumption. }
+      assert (Hnone : no_good_row (r1 :: done') -> (sc = true -> fv = None) -> no_good_row ((r1 :: done') ++ [row])).
+      { intros Hno Hrow r Hin Hs. apply in_app_or in Hin. destruct Hin as [Hin | [<- | []]]; [apply Hno; assumption|].
+        apply Hrow. exact Hs. }
+      change (r1 :: done' ++ [row]) with ((r1 :: done') ++ [row]) in Hlists.
+      destruct bv0 as [v|].
+      + destruct Hbest as (e & -> & Hfm). cbn [is_none orb andb].
+        destruct sc; cbn [andb].
+        * destruct fv as [f|]; cbn [gtv].
+          -- destruct (Qltb v f) eqn:Elt.
+             ++ apply Qltb_true in Elt. apply Hlists. cbn [app].
+                exists (end_of p (run k p)). split; [reflexivity|].
+                exists (r1 :: done'), row, []. repeat split; try reflexivity.
+                ** intros r' w Hin Hs Hw.
+                   apply (Qle_lt_trans _ v); [exact (first_max_success_all_le _ _ _ Hfm r' w Hin Hs Hw) | exact Elt].
+                ** intros r' w [].
+             ++ apply Qltb_false in Elt. apply Hlists. cbn [app]. exists e. split; [reflexivity|].
+                apply Hkeep; [exact Hfm|]. intros w _ Hw. injection Hw as <-. exact Elt.
+          -- apply Hlists. cbn [app]. exists e. split; [reflexivity|].
+             apply Hkeep; [exact Hfm|]. intros w _ Hw. discriminate.
+        * apply Hlists. cbn [app]. exists e. split; [reflexivity|].
+          apply Hkeep; [exact Hfm|]. intros w Hw. discriminate.
+      + destruct Hbest as (Hno & ->). cbn [is_none orb andb].
+        destruct sc; cbn [andb].
+        * destruct fv as [f|]; cbn [gtv].
+          -- apply Hlists. cbn [app]. exists (end_of p (run k p)). split; [reflexivity|].
+             exists (r1 :: done'), row, []. repeat split; try reflexivity.
+             ++ intros r' w Hin Hs Hw. rewrite (Hno r' Hin Hs) in Hw. discriminate.
+             ++ intros r' w [].
+          -- apply Hlists. cbn [app]. split; [|reflexivity]. apply Hnone; [exact Hno | reflexivity].
+        * apply Hlists. cbn [app]. split; [|reflexivity]. apply Hnone; [exact Hno | discriminate].
+  Qed.
+
+  (* the stopping test of the loop after n recorded runs *)
+  Definition ms_stop (nm nsel n : nat) : bool := if Nat.eqb nm 0 then Nat.eqb n nsel else (nm <=? n)%nat.
+
+  Lemma ms_loop_spec nm nsel : forall todo k st st' done,
+    ms_inv done st -> ms_loop acc run nm nsel k todo st = Ok st' ->
+    exists ran rest, todo = ran ++ rest /\ ran <> [] /\ ms_inv (done ++ ms_rows k ran) st' /\
+      ms_stop nm nsel (length done + length ran) = true /\
+      (forall m, (1 <= m < length ran)%nat -> ms_stop nm nsel (length done + m) = false).
+  Proof.
+    induction todo as [|p r IH]; intros k st st' done Hinv Hl; [discriminate|].
+    rewrite ms_loop_unfold in Hl. cbv zeta in Hl.
+    pose proof (ms_body_inv done st k p Hinv) as Hinv2.
+    assert (Hlen : length (ms_vals (ms_body k p st)) = (length done + 1)%nat).
+    { destruct Hinv2 as (_ & _ & -> & _). rewrite map_length, app_length. reflexivity. }
+    rewrite Hlen in Hl. fold (ms_stop nm nsel (length done + 1)) in Hl.
+    destruct (ms_stop nm nsel (length done + 1)) eqn:Estop.
+    - injection Hl as <-. exists [p], r. split; [reflexivity|]. split; [discriminate|].
+      split; [exact Hinv2|]. split; [exact Estop|]. cbn [length]. intros m Hm. lia.
+    - destruct (IH _ _ _ _ Hinv2 Hl) as (ran & rest & -> & Hne & Hinv' & Hs & Hm).
+      exists (p :: ran), rest. split; [reflexivity|]. split; [discriminate|].
+      rewrite app_length in Hs, Hm. cbn [length] in *. split; [|split].
+      + cbn [ms_rows]. rewrite <- app_assoc in Hinv'. exact Hinv'.
+      + replace (length done + S (length ran))%nat with (length done + 1 + length ran)%nat by lia. exact Hs.
+      + intros m Hr. destruct (Nat.eq_dec m 1) as [-> | Hn1]; [exact Estop|].
+        replace (length done + m)%nat with (length done + 1 + (m - 1))%nat by lia. apply Hm. lia.
+  Qed.
+
+  (* the starts the loop walks through *)
+  Definition ms_all_starts (nm : nat) (selected : option batch) : batch :=
+    let sel := match selected with None => [] | Some s => s end in
+    (if (nm <=? length sel)%nat then sel else sel ++ gen (nm - length sel)) ++ gen NUM_BACKUP.
+  Definition ms_num_runs (nm : nat) (selected : option batch) : nat :=
+    if Nat.eqb nm 0 then length (match selected with None => [] | Some s => s end) else nm.
+
+  (* MultistartOptimizer.optimize, whenever it returns: *)
+  Theorem ms_optimize_best_successful nm selected st :
+    ms_optimize acc run gen nm selected = Ok st ->
+    exists p1 ran' rest,
+      (* the starts that were run are the first num_runs of all_starts; there is at least one *)
+      ms_all_starts nm selected = (p1 :: ran') ++ rest /\ length (p1 :: ran') = ms_num_runs nm selected /\
+      let rows := ms_rows 0 (p1 :: ran') in
+      let row1 := ms_row_of 0 p1 in
+      (* (a) the reported lists are the rows of these runs, in order *)
+      ms_starts st = p1 :: ran' /\ ms_ends st = map r_end rows /\ ms_vals st = map r_val rows /\ ms_succ st = map r_succ rows /\
+      (* (b) some run counts: first successful end point of maximal value, with that value; it is acceptable *)
+      ((exists r, In r rows /\ good_row r) ->
+         exists e v, ms_best st = Some e /\ ms_bestv st = Some v /\ first_max_success rows e v /\ acc e = true) /\
+      (* (c) no run counts: the first start -- unless the first run is recorded as successful (with a NaN value), then
+         its acceptable end point *)
+      (no_good_row rows ->
+         ms_bestv st = None /\
+         ms_best st = Some (if r_succ row1 then r_end row1 else p1) /\
+         (r_succ row1 = true -> acc (r_end row1) = true) /\
+         ((forall r, In r rows -> r_succ r = false) -> ms_best st = Some p1)).
+  Proof.
+    unfold ms_optimize. intro H.
+    fold (ms_all_starts nm selected) in H.
+    set (sel := match selected with Some s => s | None => [] end) in *.
+    assert (Hl : ms_loop acc run nm (length sel) 0 (ms_all_starts nm selected) ms_init = Ok st).
+    { unfold ms_all_starts. fold sel. destruct selected; [exact H|]. destruct (nm <? 1)%nat; [discriminate | exact H]. }
+    clear H. destruct (ms_loop_spec _ _ _ _ _ _ _ ms_inv_init Hl) as (ran & rest & Eall & Hne & Hinv & Hstop & Hbefore).
+    cbn [app length Nat.add] in Hinv, Hstop, Hbefore.
+    destruct ran as [|p1 ran']; [congruence|]. clear Hne.
+    exists p1, ran', rest.
+    split; [exact Eall|].
+    split.
+    { unfold ms_num_runs. fold sel. unfold ms_stop in Hstop, Hbefore. destruct (Nat.eqb nm 0) eqn:E0.
+      - apply Nat.eqb_eq in Hstop. exact Hstop.
+      - apply Nat.eqb_neq in E0. apply Nat.leb_le in Hstop. cbn [length] in *.
+        destruct (Nat.eq_dec nm (S (length ran'))) as [E | Hn]; [symmetry; exact E|].
+        specialize (Hbefore (length ran')). assert (Hr : (1 <= length ran' < S (length ran'))%nat) by lia.
+        apply Hbefore in Hr. apply Nat.leb_gt in Hr. lia. }
+    cbv zeta.
+    destruct Hinv as (Hst & Hen & Hva & Hsu & Hbest).
+    split; [rewrite Hst; apply ms_rows_starts|]. split; [exact Hen|]. split; [exact Hva|]. split; [exact Hsu|].
+    cbn [ms_rows] in Hbest |- *. destruct (ms_bestv st) as [v|] eqn:Ebv.
+    - destruct Hbest as (e & Hb & Hfm). split.
+      + intros _. exists e, v. repeat split; try assumption.
+        destruct Hfm as (pre & r & post & E & Hs & _ & <- & _).
+        apply (ms_rows_acceptable (p1 :: ran') 0%nat); [|exact Hs].
+        cbn [ms_rows]. rewrite E. apply in_or_app. right. left. reflexivity.
+      + intro Hno. exfalso. destruct (first_max_success_good _ _ _ Hfm) as (r & Hin & Hs & w & Hw).
+        rewrite (Hno r Hin Hs) in Hw. discriminate.
+    - destruct Hbest as (Hno & Hb). split.
+      + intros (r & Hin & Hs & w & Hw). exfalso. rewrite (Hno r Hin Hs) in Hw. discriminate.
+      + intros _. split; [reflexivity|]. split; [exact Hb|]. split; [apply ms_row_of_acceptable|].
+        intro Hall. rewrite Hb. rewrite (Hall (ms_row_of 0 p1) (or_introl eq_refl)). reflexivity.
+  Qed.
+
+  (* every row either counts or not, so (b) and (c) cover all returns *)
+  Lemma good_row_dec rows : (exists r, In r rows /\ good_row r) \/ no_good_row rows.
+  Proof.
+    induction rows as [|r rows IH]; [right; intros r []|].
+    destruct IH as [(r' & Hin & Hg) | Hno]; [left; exists r'; split; [right; exact Hin | exact Hg]|].
+    destruct (r_succ r) eqn:Es.
+    - destruct (r_val r) as [v|] eqn:Ev.
+      + left. exists r. split; [left; reflexivity | split; eauto].
+      + right. intros r' [<- | Hin] Hs; [exact Ev | apply Hno; assumption].
+    - right. intros r' [<- | Hin] Hs; [congruence | apply Hno; assumption].
+  Qed.
 End MSProofs.
 
 (* the loop stops after exactly max(num_multistarts, len(selected_starts))-many runs when num_multistarts = 0 (selected
@@ -97,3 +364,41 @@ Lemma ms_single_failing_start_returns :
   exists st, ms_optimize (fun _ => true) (fun _ p => mkoc false false p None) (fun k => repeat [0] k) 0 (Some [[0]]) = Ok st
              /\ ms_best st = Some [0] /\ ms_vals st = [None].
 Proof. eexists. vm_compute. repeat split. Qed.
+
+(* The literal reading of the fall-back clause ("no successful in-domain run with a real value => the first starting point
+   is returned") is FALSE for the code: a first run that reports success with a NaN value (and an acceptable end point)
+   makes its end point the result.  One start [0], the run ends at [1] with success = True and fun = NaN: the loop
+   returns [1].  (Replayed on MultistartOptimizer in /repo: best_point = [1.], function_values = [nan].) *)
+Lemma ms_first_start_fallback_refuted :
+  exists acc run gen nm selected st p1,
+    ms_optimize acc run gen nm selected = Ok st /\ ms_starts st = [p1] /\
+    no_good_row (ms_rows acc run 0 [p1]) /\ ms_best st <> Some p1.
+Proof.
+  exists (fun _ => true), (fun _ _ => mkoc false true [1] None), (fun k => repeat [2] k), 1%nat, (Some [[0]]).
+  eexists. exists [0]. split; [vm_compute; reflexivity|]. split; [reflexivity|]. split.
+  - intros r [<- | []] _. reflexivity.
+  - vm_compute. intro H. discriminate.
+Qed.
+
+(* a run with several starts: the second run raises (its start is recorded as end point, NaN), the fourth ends outside the
+   domain [0,4] (NaN, its huge value is ignored), the third and fifth tie for the best value 5: the third is kept *)
+Definition ms_example_acc (p : point) : bool := Qle_bool 0 (nth 0 p 0) && Qle_bool (nth 0 p 0) 4.
+Definition ms_example_run (k : nat) (_ : point) : outcome :=
+  nth k [mkoc false true [1] (Some 3); mkoc true false [0] None; mkoc false true [3] (Some 5);
+         mkoc false true [9] (Some 100); mkoc false true [2] (Some 5)] (mkoc false false [] None).
+Lemma ms_example_run_result :
+  exists st, ms_optimize ms_example_acc ms_example_run (fun k => repeat [2] k) 5 (Some [[0]; [1]]) = Ok st /\
+    ms_best st = Some [3] /\ ms_bestv st = Some 5 /\
+    ms_starts st = [[0]; [1]; [2]; [2]; [2]] /\ ms_ends st = [[1]; [1]; [3]; [9]; [2]] /\
+    ms_vals st = [Some 3; None; Some 5; None; Some 5] /\ ms_succ st = [true; false; true; false; true] /\
+    first_max_success (ms_rows ms_example_acc ms_example_run 0 (ms_starts st)) [3] 5.
+Proof.
+  eexists. split; [vm_compute; reflexivity|]. cbn [ms_best ms_bestv ms_starts ms_ends ms_vals ms_succ].
+  repeat (split; [reflexivity|]).
+  exists [ms_row_of ms_example_acc ms_example_run 0 [0]; ms_row_of ms_example_acc ms_example_run 1 [1]],
+         (ms_row_of ms_example_acc ms_example_run 2 [2]),
+         [ms_row_of ms_example_acc ms_example_run 3 [2]; ms_row_of ms_example_acc ms_example_run 4 [2]].
+  split; [reflexivity|]. split; [reflexivity|]. split; [reflexivity|]. split; [reflexivity|]. split.
+  - intros r' w [<- | [<- | []]] Hs Hw; vm_compute in Hs, Hw; try discriminate. injection Hw as <-. reflexivity.
+  - intros r' w [<- | [<- | []]] Hs Hw; vm_compute in Hs, Hw; try discriminate. injection Hw as <-. discriminate.
+Qed.
